@@ -21,6 +21,7 @@ CORE_PROPS = ["C01", "C02", "C03", "C04", "C06", "C07", "C08", "C09", "C10", "C1
 # per property: which entries get extra weight and which auto-expansion is used
 PROFILE = {
     "default": {"n": {"quick": 10, "thorough": 60}, "auto": {"prefix_cap": 8, "all_upto": 4, "random": 2, "builtin": True}, "perms": 2},
+    "C01": {"n": {"quick": 10, "thorough": 60}, "auto": {"prefix_cap": 8, "all_upto": 6, "random": 4, "builtin": True}, "perms": 1},
     "C03": {"n": {"quick": 10, "thorough": 60}, "auto": {"prefix_cap": 14, "all_upto": 6, "random": 6, "builtin": True}, "perms": 0},
     "C15": {"n": {"quick": 10, "thorough": 60}, "auto": {"prefix_cap": 0, "all_upto": 0, "random": 0, "builtin": False}, "perms": 6},
     "C14": {"n": {"quick": 14, "thorough": 80}, "auto": {"prefix_cap": 0, "all_upto": 0, "random": 0, "builtin": True}, "perms": 0, "json_only": True,
@@ -156,6 +157,37 @@ def systematic_inputs(ents, rng, auto, nperms, extra_defs=()):
     return out
 
 
+def positional_inputs(ents, rng, extra_defs=()):
+    """C04 / C06: sequences of length 0..3 (arity +-1 for arrays and tuples) with a fault at every subset of positions, so that a
+    wrong index or a dropped element cannot hide behind position 0"""
+    import itertools
+    out = []
+    pg = coregen.PayloadGen(rng, extra_defs)
+    auto = {"prefix_cap": 4, "all_upto": 3, "random": 0, "builtin": True}
+
+    def elem_ty(ty, i):
+        return ty[1][i % len(ty[1])] if ty[0] == "tup" else ty[1]
+
+    for eid, ty in ents:
+        if ty[0] not in ("vec", "hset", "bset", "arr", "tup"):
+            continue
+        if ty[0] == "arr":
+            lens = sorted({max(0, ty[2] - 1), ty[2], ty[2] + 1})
+        elif ty[0] == "tup":
+            lens = sorted({len(ty[1]) - 1, len(ty[1]), len(ty[1]) + 1})
+        else:
+            lens = [0, 1, 2, 3]
+        for n in lens:
+            for bad in itertools.product((False, True), repeat=n):
+                es = []
+                for i, b in enumerate(bad):
+                    et = elem_ty(ty, i)
+                    es.append(coregen.vmap([("q", coregen.vseq([coregen.vint(i)]))]) if b and et[0] not in ("jvalue", "phantom", "ref") else
+                              (coregen.vseq([coregen.vmap([])]) if b else pg.gen(et, 0.0)))
+                out.append({"ty": eid, "val": coregen.vseq(es), "src": "ov" if n % 2 else "json", "grp": "start", "perm": False, "auto": auto, "perms": []})
+    return out
+
+
 def subset_inputs(ents, rng, maxfields, extra_defs=()):
     """C08: every way of deleting, nulling or corrupting any subset of the keys of the small structs: each field independently
     present-and-valid / absent / null / of a wrong kind, under two spellings of the keys"""
@@ -211,6 +243,8 @@ def gen_inputs(pid, tier, seed, extra_defs=(), extra_entries=()):
             recs.append(rec)
     recs += systematic_inputs(ents, rng, dict(prof["auto"], all_upto=min(prof["auto"]["all_upto"], 3), random=min(prof["auto"]["random"], 1)),
                               1 if prof["perms"] else 0, extra_defs)
+    if pid in ("C04", "C06", "C02", "C01", "C03") or tier == "thorough":
+        recs += positional_inputs(ents, rng, extra_defs)
     if pid == "C08" or (tier == "thorough" and pid in ("C02", "C07")):
         recs += subset_inputs(ents, rng, 3 if tier == "quick" else 4, extra_defs)
     if pid == "C15":
